@@ -1,6 +1,7 @@
 import LZ4V.Properties.C11
 import LZ4V.Proofs.FastSProof
 import LZ4V.Proofs.FastXProof
+import LZ4V.HC.HC5
 /-!
 # C11 — streaming compression round-trips over every history: the contiguous `LZ4_compress_fast_continue` stream, as a function
 
@@ -60,5 +61,14 @@ open LZ4V.Model.FastX in
 theorem placed_stream_invariant (hashOf : Array UInt8 → Bool → Nat → Nat) (S : XState) (H : List UInt8) (op : Op) (hI : Inv S H)
     (hne : (step hashOf S op).2 ≠ .block none) : Inv (step hashOf S op).1 (hist H op) :=
   step_spec hashOf S H op hI hne
+
+/-- **HC streaming at the hash-chain levels (3..9)**: a block written by `LZ4_compress_HC_continue` (model `LZ4V/HC`: the parser of
+    `LZ4HC_compress_hashChain` run on `history ++ block` from the start of the block) decodes to its source against the history — contiguous prefix,
+    external dictionary segment, loaded dictionary: where a match lies is the finders' business — for EVERY match finder that honours its contract.
+    Tie: blocks of real sessions (contiguous, double buffer, gaps, `LZ4_loadDictHC`, level changes) with the finders' answers logged from an
+    instrumented copy of lib/lz4hc.c: same sequences, same block, contract checked on every answer. -/
+theorem hc_stream_block_decodes_any_finder (hist block : List UInt8) (o : HC.Oracle) (hO : HC.OracleOK (hist ++ block) o) (fuel : Nat) (blk : List UInt8)
+    (h : HC.compressH o hist block fuel = some blk) : decode hist blk = some block :=
+  HC.compressH_decodes hist block o hO fuel blk h
 
 end LZ4V.C11
